@@ -11,6 +11,10 @@ class Unknown(Exception):
     pass
 
 
+class Thrown(Unknown):
+    """an inlined callee evaluated a throw expression; run_blocks of the caller ends with "throw" """
+
+
 class Evaluator:
     def __init__(self, prog, f, env=None, calls=None):
         self.prog = prog
@@ -260,7 +264,8 @@ class Evaluator:
                 ob_ = f.strip(f.node(n["obj"])) if (k == "CXXMemberCallExpr" and n.get("obj") is not None) else None
                 if ob_ is not None and ob_["k"] != "CXXThisExpr" and getattr(self, "pass_object", False):
                     try:
-                        args.append(self.ev(f.node(n["obj"])))
+                        # pass_object == "key": the designator of the object (table_[3]) rather than its value
+                        args.append(self.lkey(f.node(n["obj"])) if self.pass_object == "key" else self.ev(f.node(n["obj"])))
                     except Unknown:
                         args.append(None)
                 keys = []
@@ -296,7 +301,37 @@ class Evaluator:
                 g = self.prog.functions[n["callee"]["mn"]]
                 args = [self.ev(a) for a in f.args(n)]
                 pnames = {q["name"] for q in g.params}
+                glocals = set(pnames)
+                for gn in g.walk():
+                    if gn["k"] == "DeclStmt":
+                        glocals |= {d["name"] for d in gn.get("decls", [])}
                 senv = {k: v for k, v in self.env.items() if k not in pnames}
+                # a member function called on another object than the caller's `this`: the callee's unqualified
+                # fields are that object's fields
+                prefix, fields = None, set()
+                if k == "CXXMemberCallExpr" and n.get("obj") is not None and g.cls:
+                    on_ = f.node(n["obj"])
+                    os_ = f.strip(on_)
+                    if os_ is not None and os_["k"] != "CXXThisExpr":
+                        rec = self.prog.records.get(g.cls, {})
+                        fields = {fl["name"] for fl in rec.get("fields", [])}
+                        if (on_.get("ct") or "").rstrip().endswith("*"):
+                            pv = self.ev(on_)
+                            if isinstance(pv, int) and getattr(self, "heap_mode", False):
+                                if pv == 0:
+                                    raise Unknown("null dereference: %s" % render(f, n))
+                                prefix = "@%d." % pv
+                            elif isinstance(pv, tuple):
+                                prefix = "%s[%d]." % (pv[1], pv[2])
+                            else:
+                                raise Unknown("object of %s" % render(f, n))
+                        else:
+                            prefix = self.lkey(on_) + "."
+                        root = lambda key: key.split(".")[0].split("[")[0]
+                        senv = {k_: v for k_, v in senv.items() if root(k_) not in fields}
+                        for k_, v in self.env.items():
+                            if k_.startswith(prefix) and root(k_[len(prefix):]) in fields:
+                                senv[k_[len(prefix):]] = v
                 senv.update({q["name"]: self.wrap(v, q["ct"]) if isinstance(v, int) else v for q, v in zip(g.params, args)})
                 sub = Evaluator(self.prog, g, env=senv, calls=self.calls)
                 sub.inline = inl
@@ -304,9 +339,16 @@ class Evaluator:
                 sub.pass_object = getattr(self, "pass_object", False)
                 sub.heap_mode = getattr(self, "heap_mode", False)
                 sub.on_subscript = getattr(self, "on_subscript", None)
-                sub.run_blocks(g.entry, max_steps=500)
+                sub.run_blocks(g.entry, max_steps=5000)
+                if getattr(sub, "threw", None) is not None:
+                    self.threw = sub.threw
+                    raise Thrown(nm)
                 for sk, sv in sub.stores:
-                    if sk.startswith("@") or "." in sk or "[" in sk or (sk in self.env and sk not in pnames):
+                    rk = sk.split(".")[0].split("[")[0]
+                    if prefix is not None and rk in fields:
+                        self.env[prefix + sk] = sv
+                        self.stores.append((prefix + sk, sv))
+                    elif sk.startswith("@") or "." in sk or "[" in sk or (sk in self.env and rk not in glocals):
                         self.env[sk] = sv
                         self.stores.append((sk, sv))
                 if getattr(sub, "wraps", None):
@@ -410,13 +452,20 @@ class Evaluator:
                         if d.get("init") is not None:
                             try:
                                 self.env[d["name"]] = self.ev(d["init"])
+                            except Thrown:
+                                return "throw", visited
                             except Unknown:
                                 self.env.pop(d["name"], None)
                     continue
+                if n["k"] == "CXXThrowExpr":
+                    self.threw = n
+                    return "throw", visited
                 if n["k"] == "ReturnStmt":
                     if n.get("value") is not None:
                         try:
                             self.ret = self.ev(f.node(n["value"]))
+                        except Thrown:
+                            return "throw", visited
                         except Unknown as u:
                             self.ret = ("unknown", str(u))
                     else:
@@ -424,6 +473,8 @@ class Evaluator:
                     return "return", visited
                 try:
                     vals[e] = self.ev(n)
+                except Thrown:
+                    return "throw", visited
                 except Unknown as u:
                     vals[e] = u
             succ = [s for s in blk["succ"]]
